@@ -60,9 +60,12 @@ class MemBroker(BaseBroker):
         :return: The next invocation id from the queue, or None if the queue is empty.
         :rtype: InvocationId | None
         """
-        if self._queue:
+        try:
             return self._queue.popleft()
-        return None
+        except IndexError:
+            # empty queue (also when another thread took the last message
+            # between a check and the pop)
+            return None
 
     def count_invocations(self) -> int:
         """
